@@ -139,6 +139,11 @@ Definition check_cliworkers : rd verdict :=
   ret (combine_verdicts [ prop_ok 301 (peak <=? maxw) [maxw; conns; peak];
                           prop_ok 302 (reach - 1 <=? peak) [maxw; conns; peak; total] ]).
 
+(* Stop before Attack: the first Stop initiates, the attack ends by itself, a later Stop does not initiate *)
+Definition check_prestop : rd verdict :=
+  first <- getbool ;; ended <- getbool ;; later <- getbool ;; n <- getz ;;
+  ret (combine_verdicts [ prop_ok 205 first [n]; prop_ok 208 ended [n]; prop_ok 209 (negb later) [n] ]).
+
 Definition getcase_with (mw : Z) : rd acase :=
   iw <- getz ;; d <- getz ;; fl <- getlist getz ;;
   steps <- getlist (getpair getaction getsnap) ;; fin <- getfinal ;;
@@ -147,7 +152,7 @@ Definition getcase_with (mw : Z) : rd acase :=
 Definition check_for (lo hi : Z) : rd verdict :=
   mw <- getz ;;
   if mw =? 0 then check_cli else if mw =? -1 then check_cli2 else
-  if mw =? -2 then check_stopstress else if mw =? -3 then check_optleak else if mw =? -4 then check_cliworkers else
+  if mw =? -2 then check_stopstress else if mw =? -3 then check_optleak else if mw =? -4 then check_cliworkers else if mw =? -5 then check_prestop else
   cs <- getcase_with mw ;;
   let c := a_cfg cs in
   let k := fold_left (step_acc c) (a_steps cs) acc0 in
